@@ -29,6 +29,11 @@ def run(ctx):
     for i, fill in enumerate([(-50, 1, -30), (-50, -50, 1), (-50, 2, 2)]):
         tiny += S.sweep(ctx, 40 if q else 600, 30, precs="ds", drivers=("gssv",), flavour="asan",
                         force={"fill": fill, "nprocs": None, "kind": ["random", "dense", "band"]}, seed_offset=520 + i)
+    # estimates that differ between the arrays: the L-subscript estimate just about fits (supernodal L needs few subscripts) while U fills
+    # heavily (natural order, arrow/dense/star patterns): every array must be sized and bounded by ITS OWN estimate
+    for i, fill in enumerate([(-50, -50, -1), (-50, -50, -2), (-50, -3, -1)]):
+        tiny += S.sweep(ctx, 40 if q else 600, 30, precs="dszc", drivers=("gssv",), flavour="asan",
+                        force={"fill": fill, "nprocs": None, "colperm": 0, "kind": ["arrow", "dense", "star", "band"]}, seed_offset=530 + i)
     diag = 0; okc = 0; teardown = 0
     for r in tiny:
         if r["status"] == "ok":
@@ -37,9 +42,12 @@ def run(ctx):
         has_diag = ("exceeded" in err or "Memory allocation failed" in err or "Not enough memory" in err)
         if r["status"] == "crash" and r["rc"] is not None and r["rc"] > 0 and has_diag and "Sanitizer" not in err:
             diag += 1; continue
-        if r["status"] == "crash" and has_diag and "Sanitizer" in err and err.find("Sanitizer") > max(err.find("exceeded"), err.find("Memory allocation failed")):
-            # the diagnostic was printed and the aborting thread called exit(); another worker faulted while the process was being
-            # torn down under it (exit() with running threads).  The run did stop through the library's diagnostic path.
+        if (r["status"] == "crash" and has_diag and r["rc"] == 255 and "DEADLYSIGNAL" in err and "overflow" not in err and "use-after" not in err
+                and err.find("DEADLYSIGNAL") > max(err.find("exceeded"), err.find("Memory allocation failed"))):
+            # the diagnostic was printed and the aborting thread's exit(-1) ended the process (rc 255, not ASan's abort): while exit() ran the
+            # shared libraries' destructors (OpenBLAS frees its buffers) another worker, still inside a BLAS kernel, took a SIGSEGV whose
+            # report ASan could not finish.  The run did stop through the library's diagnostic path; any memory error ASan can name
+            # (overflow, use-after-free) or a signal that ends the process is still a violation.
             diag += 1; teardown += 1; continue
         ctx.violation("tiny-estimate:" + (r.get("crash_site") or r["status"]), "too-small storage estimate %s did not end in the library diagnostic: status=%s rc=%s %s" % (
             r["cfg"]["fill"], r["status"], r["rc"], err[-200:].replace("\n", " | ")), S.replay_blob(r))
